@@ -21,6 +21,10 @@ Proof. exact fast_pow_mod_spec. Qed.
 Theorem C16_two_adic_model : forall p, 1 < p ->
   let '(s, t) := two_adic p in p - 1 = 2 ^ s * t /\ Z.odd t = true /\ 0 <= s.
 Proof. exact two_adic_model_spec. Qed.
+(* the 63-round square-and-multiply of montgomery_backend.rs `inv` yields -p^(-1) mod 2^64 for EVERY odd p *)
+Theorem C16_mont_inv_model : forall p, Z.odd p = true ->
+  0 <= mont_inv p < W64 /\ (mont_inv p * p) mod W64 = W64 - 1.
+Proof. exact mont_inv_model_spec. Qed.
 Theorem C16_num_bits_model : forall p, 0 < p -> 2 ^ (num_bits p - 1) <= p < 2 ^ num_bits p.
 Proof. exact num_bits_model_spec. Qed.
 Theorem C16_pow_mod_model : forall a e p, 0 <= e -> p <> 0 -> pow_mod a e p = a ^ e mod p.
